@@ -506,6 +506,7 @@ type Clause struct {
 type LoopSpec struct {
 	Index      int
 	Invariants []*Clause
+	LockInvariants []*Clause
 	Modifies   []*Clause
 	Decreases  *Clause
 }
@@ -581,7 +582,7 @@ func NewSpecSet() *SpecSet {
 
 var clauseKeywords = map[string]bool{"requires": true, "ensures": true, "modifies": true, "pure": true, "trusted": true, "lemma": true,
 	"loop": true, "invariant": true, "decreases": true, "callspec": true, "observe": true, "replay": true, "prop": true, "func": true,
-	"sort": true, "fun": true, "ghost": true, "axiom": true, "define": true, "inline": true, "noinline": true, "guarded": true, "flag": true, "loopmodifies": true, "lockrequires": true, "lockensures": true}
+	"sort": true, "fun": true, "ghost": true, "axiom": true, "define": true, "inline": true, "noinline": true, "guarded": true, "flag": true, "loopmodifies": true, "lockrequires": true, "lockensures": true, "lockinvariant": true}
 
 // ParseSpecLines parses the //@ lines of one package (pkgPath is used for type resolution).
 func (ss *SpecSet) ParseSpecLines(lines []SpecLine, pkgPath string, keyPrefix string) error {
@@ -751,7 +752,7 @@ func (ss *SpecSet) ParseSpecLines(lines []SpecLine, pkgPath string, keyPrefix st
 				curCall = &CallSpec{Param: strings.TrimSpace(it.rest)}
 				cur.CallSpecs[curCall.Param] = curCall
 				curLoop = nil
-			case "requires", "ensures", "modifies", "invariant", "decreases", "observe", "loopmodifies", "lockrequires", "lockensures":
+			case "requires", "ensures", "modifies", "invariant", "decreases", "observe", "loopmodifies", "lockrequires", "lockensures", "lockinvariant":
 				texts := []string{it.rest}
 				if it.kw == "modifies" || it.kw == "loopmodifies" || it.kw == "observe" {
 					texts = splitTop(it.rest, ',')
@@ -782,6 +783,11 @@ func (ss *SpecSet) ParseSpecLines(lines []SpecLine, pkgPath string, keyPrefix st
 						cur.Modifies = append(cur.Modifies, c)
 					case "observe":
 						cur.Observe = append(cur.Observe, c)
+					case "lockinvariant":
+						if curLoop == nil {
+							return fmt.Errorf("%s:%d: lockinvariant outside loop", it.src.File, it.src.Line)
+						}
+						curLoop.LockInvariants = append(curLoop.LockInvariants, c)
 					case "invariant":
 						if curLoop == nil {
 							return fmt.Errorf("%s:%d: invariant outside loop", it.src.File, it.src.Line)
